@@ -27,7 +27,7 @@ K_PB = ['pb_varint_roundtrip', 'pb_varint_decode_total', 'pb_varint_decode_value
 A_LB = 'unit unsafe_lb: write_i32, advance_mut, the re-derivation of the window (`self.buf = slice::from_raw_parts_mut(..)`) and the raw copy (`ptr::copy_nonoverlapping`) of the unchecked LinkedBytes writer are ASSUMED contracts written from their bodies (rule D22); no Kani harness reaches LinkedBytes (measured: > 25 min, 22 GB)'
 
 PROPS = {
-    'C01': dict(verus=THRIFT_UNITS + ['unsafe_skip', 'unsafe_lb'], kani=K_SUPPORT + K_C11_W + K_C11_R, assumptions=A_COMMON + [A_LB],
+    'C01': dict(verus=THRIFT_UNITS + ['unsafe_skip', 'unsafe_lb', 'async_binary', 'async_binary_le', 'async_compact'], kani=K_SUPPORT + K_C11_W + K_C11_R, assumptions=A_COMMON + [A_LB],
                 not_covered=NOT_GEN + '; the unchecked LinkedBytes writer is decided only for the ORDER of operations in write_faststr / write_bytes / write_bytes_without_len (zero-copy branch) over assumed contracts of its raw-store primitives (unit unsafe_lb); its primitives, write_message_begin and write_field_begin (raw stores) are not decided'),
     'C03': dict(verus=THRIFT_UNITS, kani=K_SUPPORT, assumptions=A_COMMON,
                 not_covered=NOT_GEN + '; ApplicationException::{encode,decode} not yet under contract'),
